@@ -52,6 +52,9 @@ FitClauses(e) ==
        \* to the one that holds T_ref each carry enough distinct data temperatures (samples[i][8] = the smallest count;
        \* under-determined segments are outside the quantifier)
        dense(i) == e.samples[i][8] >= Need(e.fam)
+       \* Cp is not chained to the reference: it is judged wherever the sample's OWN segment is determined
+       \* (samples[i][9]), also when a segment between it and T_ref is not
+       denseOwn(i) == e.samples[i][9] >= Need(e.fam)
        nd == Cardinality({i \in Idx(e.samples) : dense(i)})
        tracks == e.src = "statmech" /\ Band(e) # 0
        bd == Band(e)
@@ -63,16 +66,22 @@ FitClauses(e) ==
       \* break) is the common value of the two polynomials there
       \cup Chk(\A i \in Idx(e.hb) : \A k \in 1..2 : CloseIn(e.hb[i][k], e.hl[i], {e.hr[i], Tiny}, 6), "ReportedAtBreakH")
       \cup Chk(\A i \in Idx(e.sb) : \A k \in 1..2 : CloseIn(e.sb[i][k], e.sl[i], {e.sr[i], Tiny}, 6), "ReportedAtBreakS")
+      \* a fit asked with a LIST of T_mid guesses is the fit at the guess it reports: refitting with that scalar
+      \* gives the same species (e.refit = its Cp/R, H/RT, S/R at the sample temperatures; <<>> when not applicable)
+      \cup Chk(\A i \in Idx(e.refit) : /\ CloseIn(e.refit[i][1], cpF[i], SetOf(cpF) \cup {Tiny}, 6)
+                                          /\ CloseIn(e.refit[i][2], hF[i], SetOf(hF) \cup {Tiny}, 6)
+                                          /\ CloseIn(e.refit[i][3], sF[i], SetOf(sF) \cup {Tiny}, 6),
+               "ListChoiceIsFitAtReportedTmid")
       \cup Chk(e.Tlo = e.dmin /\ e.Thi = e.dmax, "Bounds")
       \cup Chk(\A i \in Idx(e.brk) : Lt(e.Tlo, e.brk[i]) /\ Lt(e.brk[i], e.Thi), "BreakInside")
       \cup Chk(Len(e.hl) = Len(e.brk), "BreakCount")
       \cup (IF exact
-            THEN Chk(\A i \in Idx(cpF) : dense(i) => CloseIn(cpF[i], cpS[i], SetOf(cpS) \cup {Tiny}, 6), "ExactRecoveryCp")
+            THEN Chk(\A i \in Idx(cpF) : denseOwn(i) => CloseIn(cpF[i], cpS[i], SetOf(cpS) \cup {Tiny}, 6), "ExactRecoveryCp")
                  \cup Chk(\A i \in Idx(hF) : dense(i) => CloseIn(hF[i], hS[i], SetOf(hS) \cup {Tiny}, 6), "ExactRecoveryH")
                  \cup Chk(\A i \in Idx(sF) : dense(i) => CloseIn(sF[i], sS[i], SetOf(sS) \cup {Tiny}, 6), "ExactRecoveryS")
             ELSE {})
       \cup (IF tracks
-            THEN Chk(\A i \in Idx(cpF) : dense(i) => AbsLe(cpF[i], cpS[i], TrackCp(bd)), "TracksCp")
+            THEN Chk(\A i \in Idx(cpF) : denseOwn(i) => AbsLe(cpF[i], cpS[i], TrackCp(bd)), "TracksCp")
                  \cup Chk(\A i \in Idx(hF) : dense(i) => AbsLe(hF[i], hS[i], TrackH(bd)), "TracksH")
                  \cup Chk(\A i \in Idx(sF) : dense(i) => AbsLe(sF[i], sS[i], TrackS(bd)), "TracksS")
             ELSE {})
